@@ -294,10 +294,18 @@ def f_callbacks(rng):
 FAMILIES = [(f_callbacks, 1), (f_mutex_counter, 4), (f_two_locks, 2), (f_condvar_buffer, 4), (f_fork_join, 3), (f_join_states, 2), (f_locals, 3), (f_timed, 4)]
 
 
-def gen_sched(rng, timed):
-    mode = rng.weighted([("ones", 2), ("uniform", 4), ("preempt", 4), ("small", 2)])
+def gen_sched(rng, timed, tier="quick", index=0):
+    mode = rng.weighted([("ones", 2), ("uniform", 4), ("preempt", 4), ("small", 2), ("sweep", 5 if tier == "thorough" else 0)])
     sched = {"thread_inv": True, "deadlock_check": True, "tick_budget": 6000000, "default_q": 500, "default_clock_step": rng.choice([5, 20, 50])}
-    if mode == "ones":
+    if mode == "sweep":
+        # bounded-preemption sweep: the first preemption lands after exactly n instructions (n walks over every instruction index
+        # across the cases of a thorough run), followed by 1-2 more tape-chosen short slices; everything else runs at the default quantum
+        n = (index * 7919) % 4000 + 1
+        tape = [n, rng.choice([1, 1, 2, 5])]
+        for _ in range(rng.range(0, 2)):
+            tape += [500] * rng.range(0, 3) + [rng.range(1, 30)]
+        sched["quantum"] = tape
+    elif mode == "ones":
         sched["default_q"] = 1
     elif mode == "small":
         sched["default_q"] = rng.range(2, 20)
@@ -320,7 +328,7 @@ def gen_sched(rng, timed):
 def generate(rng, tier, index, seed):
     fam = rng.weighted(FAMILIES)
     name, src, exp, nthreads = fam(rng.fork("prog"))
-    sched, mode = gen_sched(rng.fork("sched"), name.startswith("timed"))
+    sched, mode = gen_sched(rng.fork("sched"), name.startswith("timed"), tier, index)
     gc = {"mode": "none"}
     if rng.chance(1, 4):
         gc = {"mode": "bernoulli", "p1024": rng.choice([1, 8, 64]), "seed": rng.below(1 << 30)}
